@@ -16,7 +16,10 @@ use proptest::prelude::*;
 
 use grafeo_adapters::plugins::algorithms as alg;
 use grafeo_adapters::plugins::algorithms::{Control, TraversalEvent};
-use grafeo_common::types::{EdgeId, NodeId};
+use grafeo_common::types::{EdgeId, LogicalType, NodeId, Value};
+use grafeo_core::execution::chunk::DataChunkBuilder;
+use grafeo_core::execution::operators::{Operator, OperatorResult, ShortestPathOperator};
+use grafeo_core::graph::Direction;
 
 use crate::driver::{CaseResult, Failure, Run, catch, fail, guard, hash_of, ok};
 use graphs::{Built, Case, RE, RG, Shape, Sign};
@@ -1241,6 +1244,132 @@ fn check_community(case: &Case) -> CaseResult {
 }
 
 // ------------------------------------------------------------------------------------------------
+// ShortestPathOperator (query engine): hop distance and number of shortest paths per (source, target)
+// ------------------------------------------------------------------------------------------------
+
+struct PairInput {
+    pairs: Vec<(NodeId, NodeId)>,
+    done: bool,
+}
+
+impl Operator for PairInput {
+    fn next(&mut self) -> OperatorResult {
+        if self.done || self.pairs.is_empty() {
+            return Ok(None);
+        }
+        self.done = true;
+        let schema = vec![LogicalType::Node, LogicalType::Node];
+        let mut bld = DataChunkBuilder::with_capacity(&schema, self.pairs.len());
+        for (s, t) in &self.pairs {
+            bld.column_mut(0).unwrap().push_node_id(*s);
+            bld.column_mut(1).unwrap().push_node_id(*t);
+            bld.advance_row();
+        }
+        Ok(Some(bld.finish()))
+    }
+    fn reset(&mut self) {
+        self.done = false;
+    }
+    fn name(&self) -> &'static str {
+        "PairInput"
+    }
+}
+
+fn check_sp_operator(case: &Case) -> CaseResult {
+    let b = guard("build", || case.build())?;
+    let n = b.rg.n;
+    let srcs = case.picks(n, 8, 4, 1);
+    let tgts = case.picks(n, 8, 4, 5);
+    let pairs: Vec<(usize, usize)> = srcs.iter().flat_map(|s| tgts.iter().map(move |t| (*s, *t))).collect();
+    let mut multi = false;
+    for (dir, dname) in [(Direction::Outgoing, "outgoing"), (Direction::Incoming, "incoming"), (Direction::Both, "both")] {
+        let arcs: Vec<RE> = b
+            .rg
+            .edges
+            .iter()
+            .flat_map(|e| {
+                let f = *e;
+                let r = RE { s: e.d, d: e.s, ..*e };
+                match dir {
+                    Direction::Outgoing => vec![f],
+                    Direction::Incoming => vec![r],
+                    Direction::Both => vec![f, r],
+                }
+            })
+            .collect();
+        let g = RG { n, edges: arcs };
+        let per_src: HashMap<usize, (Vec<Option<usize>>, Vec<u64>)> = srcs.iter().map(|s| (*s, model::path_counts(&g, *s))).collect();
+        for all in [false, true] {
+            // expected multiset of (s, t, len) rows
+            let mut want: Vec<(usize, usize, Option<i64>)> = Vec::new();
+            let mut too_many = false;
+            for (s, t) in &pairs {
+                let (h, sig) = &per_src[s];
+                match h[*t] {
+                    None => want.push((*s, *t, None)),
+                    Some(d) => {
+                        let k = if all && s != t { sig[*t] } else { 1 };
+                        if k > 1 {
+                            multi = true;
+                        }
+                        if k > 2_000 {
+                            too_many = true;
+                            break;
+                        }
+                        for _ in 0..k {
+                            want.push((*s, *t, Some(d as i64)));
+                        }
+                    }
+                }
+            }
+            if too_many {
+                continue; // the operator would materialise an enormous chunk: outside this check
+            }
+            let input = Box::new(PairInput { pairs: pairs.iter().map(|(s, t)| (b.ids[*s], b.ids[*t])).collect(), done: false });
+            let mut got: Vec<(usize, usize, Option<i64>)> = Vec::new();
+            let ctx = format!("direction {dname}, all_paths {all}");
+            guard("shortest-path operator", || -> Result<(), Failure> {
+                let mut op = ShortestPathOperator::new(b.store.clone(), input, 0, 1, None, dir).with_all_paths(all);
+                for _ in 0..4 {
+                    let chunk = match op.next() {
+                        Ok(Some(c)) => c,
+                        Ok(None) => break,
+                        Err(e) => return fail("c19/sp_operator/error", format!("{ctx}: {e:?}")),
+                    };
+                    for row in chunk.selected_indices() {
+                        let s = chunk.column(0).and_then(|c| c.get_node_id(row));
+                        let t = chunk.column(1).and_then(|c| c.get_node_id(row));
+                        let l = chunk.column(2).and_then(|c| c.get_value(row));
+                        let (Some(s), Some(t)) = (s.and_then(|x| b.pos.get(&x)), t.and_then(|x| b.pos.get(&x))) else {
+                            return fail("c19/sp_operator/row", format!("{ctx}: row {row} does not carry its source/target"));
+                        };
+                        let l = match l {
+                            Some(Value::Int64(x)) => Some(x),
+                            Some(Value::Null) | None => None,
+                            Some(o) => return fail("c19/sp_operator/row", format!("{ctx}: length column holds {o:?}")),
+                        };
+                        got.push((*s, *t, l));
+                    }
+                }
+                Ok(())
+            })??;
+            got.sort_unstable();
+            want.sort_unstable();
+            if got != want {
+                let g1: BTreeSet<_> = got.iter().collect();
+                let w1: BTreeSet<_> = want.iter().collect();
+                let sig = if g1 != w1 { "c19/sp_operator/length" } else { "c19/sp_operator/path-count" };
+                let diff: Vec<_> = w1.symmetric_difference(&g1).take(6).collect();
+                return fail(sig, format!("{ctx}: rows (s,t,len) differ from the oracle: {} vs {} rows; first differences {diff:?}", got.len(), want.len()));
+            }
+        }
+    }
+    let sh = Shape::of(case, &b.rg);
+    let cls = format!("{}{}", sh.class(), if multi { "+multi-path" } else { "" });
+    ok(sh.nontrivial(), cls, hash_of(case))
+}
+
+// ------------------------------------------------------------------------------------------------
 
 pub fn run(r: &mut Run) {
     r.level = "exploration";
@@ -1257,6 +1386,9 @@ pub fn run(r: &mut Run) {
     r.assumptions.push("Dijkstra, A*, max-flow and min-cost flow are only given non-negative weights/capacities/costs; A* only admissible heuristics (zero, exact, half, and an admissible inconsistent one)".into());
     r.assumptions.push("float weights are multiples of 0.25 so that every path sum is exact; comparisons use relative tolerance 1e-9".into());
     r.assumptions.push("betweenness on multigraphs: either reading (parallel edges as distinct shortest paths, or merged) is accepted; PageRank: dangling mass is spread uniformly (as the code documents), so the scores sum to 1".into());
+    r.assumptions.push("min-cost flow: capacities and costs non-negative; half of the `mincost` cases are generated pair-clean (one cost per ordered pair, no anti-parallel pair) so that the open finding C19-mincost-pair-matrix cannot apply and cost minimality is strict there".into());
+    r.assumptions.push("ShortestPathOperator (query-engine anchor): hop distance per input pair for the three directions, and with all_paths one row per shortest edge sequence (parallel edges distinct), Null row when unreachable; pairs whose path count exceeds 2000 are skipped".into());
+    r.assumptions.push("community detection (label propagation, Louvain) has no exact specification: only partition of the node set, no community across weak components, contiguous labels / consistent counts, finite modularity <= 1".into());
     r.assumptions.push("Prim returns a minimum spanning tree of the start node's weak component only (it 'grows the MST from a starting node'); Kruskal = Prim is asserted on weakly connected graphs".into());
 
     let max_n = if r.is_thorough() { 40 } else { 10 };
@@ -1279,5 +1411,6 @@ pub fn run(r: &mut Run) {
     r.subcheck("mincost", r.cases(10_000, 200_000), mc, |c: &Case| with_deadline("mincost", c, check_mincost));
     r.subcheck("structure", r.cases(20_000, 400_000), nn, |c: &Case| with_deadline("structure", c, check_structure));
     r.subcheck("centrality", r.cases(20_000, 400_000), nn, |c: &Case| with_deadline("centrality", c, check_centrality));
+    r.subcheck("sp_operator", r.cases(10_000, 200_000), nn, |c: &Case| with_deadline("sp_operator", c, check_sp_operator));
     r.subcheck("community", r.cases(10_000, 200_000), nn, |c: &Case| with_deadline("community", c, check_community));
 }
